@@ -18,6 +18,10 @@ type fakeConnector struct{ s *Store }
 
 var storeMu sync.Mutex // database/sql may call the driver from several goroutines
 
+// database/sql repeats a call that failed with driver.ErrBadConn outside a
+// transaction: twice more (maxBadConnRetries cached-or-new attempts, then one on a new connection)
+const sqlBadConnRetries = 2
+
 func lockStore()   { storeMu.Lock() }
 func unlockStore() { storeMu.Unlock() }
 
